@@ -111,6 +111,55 @@ Theorem C02_noop_rebuild_labels : forall (H : str -> str) cfg s roots w c (ps : 
 Proof. exact noop_rebuild_labels. Qed.
 Print Assumptions C02_noop_rebuild_labels.
 
+(* the second build may start from ANY world in which the external conditions that held after the first
+   build still hold, and from ANY cache that holds the first build's results and blobs and no further taint
+   ([serves]) -- in particular the cache a build with the cache DISABLED leaves (C13_cache_off_leaves_cache) *)
+Theorem C02_noop_rebuild_any_cache : forall (H : str -> str) cfg s roots w c w' c',
+  cfg_mode cfg = LAll -> cfg_cache cfg = true -> cache_complete c ->
+  br_ok (build H cfg s roots w c) = true ->
+  distinct_keys (build_state H cfg s roots w c) = true ->
+  no_nocache_sel s (selection s roots) = true ->
+  let r1 := build H cfg s roots w c in
+  serves (br_cache r1) c' ->
+  (forall l, label_in l (w_ext (br_world r1)) = true -> label_in l (w_ext w') = true) ->
+  let r2 := build H cfg s roots w' c' in
+  br_exec r2 = [] /\ br_ok r2 = true.
+Proof. exact noop_rebuild_gen. Qed.
+Print Assumptions C02_noop_rebuild_any_cache.
+
+(* a build with the cache disabled between two cached builds invalidates nothing (the finding C02-F2 was the
+   opposite: it overwrote every stored result with an output-less record): build, perturb the output paths,
+   build ANY snapshot with the cache disabled (successfully), build again -- nothing runs *)
+Theorem C02_noop_rebuild_after_cache_off :
+  forall (H : str -> str) cfg cfg' s s' roots roots' w c (ps : list (str * pstate)),
+  cfg_mode cfg = LAll -> cfg_cache cfg = true -> cache_complete c ->
+  br_ok (build H cfg s roots w c) = true ->
+  distinct_keys (build_state H cfg s roots w c) = true ->
+  no_nocache_sel s (selection s roots) = true ->
+  cfg_mode cfg' = LAll -> cfg_cache cfg' = false ->
+  let r1 := build H cfg s roots w c in
+  let w1 := mkWorld (apply_perturbs ps (w_ws (br_world r1))) (w_ext (br_world r1)) in
+  let roff := build H cfg' s' roots' w1 (br_cache r1) in
+  br_ok roff = true ->
+  let r3 := build H cfg s roots (br_world roff) (br_cache roff) in
+  c_results (br_cache roff) = c_results (br_cache r1) /\ c_cas (br_cache roff) = c_cas (br_cache r1) /\
+  br_exec r3 = [] /\ br_ok r3 = true.
+Proof. exact rebuild_after_cache_off. Qed.
+Print Assumptions C02_noop_rebuild_after_cache_off.
+
+Theorem C02_noop_rebuild_after_cache_off_nonvacuous :
+  br_ok C02_examples.r1 = true /\
+  distinct_keys (build_state hex_enc C02_examples.cfgA C02_examples.sx [3] C02_examples.w0 empty_cache) = true /\
+  no_nocache_sel C02_examples.sx (selection C02_examples.sx [3]) = true /\
+  br_ok C02_examples.roff = true /\ length (br_exec C02_examples.roff) = 3 /\
+  br_status C02_examples.roff = [TExecuted; TExecuted; THit; TExecuted] /\
+  c_results (br_cache C02_examples.roff) = c_results (br_cache C02_examples.r1) /\
+  c_cas (br_cache C02_examples.roff) = c_cas (br_cache C02_examples.r1) /\
+  br_exec C02_examples.r3 = [] /\ br_ok C02_examples.r3 = true /\
+  br_status C02_examples.r3 = [THit; THit; THit; THit].
+Proof. exact C02_examples.rebuild_after_cache_off_nonvacuous. Qed.
+Print Assumptions C02_noop_rebuild_after_cache_off_nonvacuous.
+
 (* without the distinct-keys guard the statement is false in general, and distinct labels alone do not
    give it when the digest is not injective: under a constant digest two targets of one snapshot share
    their key, overwrite each other's result and the first re-executes on an immediate rebuild *)
